@@ -1469,12 +1469,18 @@ class CParser:
         if self._accept("RPAREN"):
             args = None
         else:
+            # Tags and enumerators declared inside a parameter list have
+            # function prototype scope: they end at the ')', and an enumerator
+            # can reuse the name of a typedef of the enclosing scope.
+            # (Parameter names are not entered here; see _declare_parameter_names.)
+            self._push_scope()
             args = (
                 self._parse_parameter_type_list()
                 if self._starts_declaration()
                 else self._parse_identifier_list_opt()
             )
             self._expect("RPAREN")
+            self._pop_scope()
 
         return c_ast.FuncDecl(args=args, type=None, coord=base_decl.coord)
 
